@@ -251,6 +251,12 @@ func txmRunOne(idx int, beh *txmBeh) *txmDiv {
 			}
 		case "tick":
 			w.m.VerifAgeRequests(w.timeout)
+		case "clean":
+			// a cut-off after everything the manager holds: the processor has to have taken what was queued for
+			// it first (Clean and the hand-over are not ordered otherwise)
+			if err := w.m.Clean(w.ctx, time.Now().Add(time.Hour)); err != nil {
+				return fail(step, "Clean error "+err.Error())
+			}
 		}
 		total := 0
 		for _, v := range op.Forwarded {
